@@ -71,6 +71,12 @@ W["F27"] = ("C10", P(resources=[R("r")],
 W["F8"] = ("C14", P(start=1796342400, dur=[12, "w"], resources=[R("r", limits={"weeklymax": "10h"})],
                     tasks=[T("a", effort=["60", "h"], alloc=["r"])]))   # 2026-12-04
 
+W["F31"] = ("C03", P(resources=[R("grp", limits={"dailymax": "3h"}, children=[R("r0"), R("r1")])],
+                     tasks=[T("t", effort=["4", "h"], alloc=["r0", "r1"])]))
+W["F32"] = ("C03", P(resources=[R("r0"), R("r1")],
+                     tasks=[T("a", effort=["20", "min"], alloc=["r0"], prio=900),
+                            T("t", effort=["2", "h"], alloc=["r0", "r1"], prio=100)]))
+
 if __name__ == "__main__":
     os.makedirs(os.path.join(ROOT, "findings"), exist_ok=True)
     for k, (prop, ast) in W.items():
